@@ -555,3 +555,5 @@ B("C07", "invariant-alias-kept", "chalk-solve/src/infer/unify.rs",
             }""", "C07.ALIAS-GENERALIZED")
 B("C22", "alias-counter-not-advanced", "chalk-solve/src/display/state.rs",
   "            *next_unused += 1;\n", "", "C22.NAME-INJECTIVE:alias_for_id_name:counter-advanced")
+B("C19", "skip-when-either-negative", "chalk-solve/src/coherence/solve.rs",
+  "            if !lhs.is_positive() && !rhs.is_positive() {", "            if !lhs.is_positive() || !rhs.is_positive() {", "C19.ALL-PAIRS:skip-only-negative-negative")
